@@ -3,6 +3,7 @@ their evidence goes to evidence/extra/, their verdict lines use the ids E01.. an
 
 E01  accfg-insert-resets: an inserted reset never changes what a launch observes, and at function return every chain of
      configuration states has ended in a reset (contract `resets`).
+E03  convert-linalg-to-dart: the streamed operands / patterns are the used operands / their indexing maps; same scalar body.
 E02  snax-to-func / snax-lower-mcycle: lowering of cluster barriers and cycle-counter reads is an event renaming: the lowered
      program performs the same side effects in the same order, every snax.cluster_sync_op becomes exactly one call of
      snax_cluster_hw_barrier on every path (contract `effects` after renaming).
@@ -154,7 +155,124 @@ def run_lowering(pid, tier, seed):
     return rep.finish(known)
 
 
+def run_streamify(pid, tier, seed):
+    """E03 convert-linalg-to-dart: the dart.operation streams exactly the shaped operands the body uses (inputs) and all outputs, each with
+    its own indexing map as pattern, on the accelerator named by the library call; the dart.generic computes the same scalar function."""
+    import random
+
+    from xdsl.dialects import linalg
+
+    from checks_kernel import domains, finish_image, wmap
+    from export_ir import export_body
+    from objs import run_obj_batch
+    from snaxc.dialects import dart
+    rep = ExtraReport(pid, tier, seed)
+    known = KnownFindings()
+    rng = random.Random(seed)
+    n = 150 if tier == "quick" else 2500
+    MAPS2 = ["(d0, d1) -> (d0, d1)", "(d0, d1) -> (d1, d0)", "(d0, d1) -> (d0)", "(d0, d1) -> (d1)"]
+    ocases, pcases = [], []
+    for k in range(n):
+        nin = rng.choice([1, 2, 2, 3])
+        w = rng.choice([8, 32, 64])
+        maps, tys = [], []
+        for j in range(nin):
+            mp = rng.choice(MAPS2)
+            maps.append(mp)
+            res = mp.split("->")[1].strip(" ()").split(", ")
+            tys.append("tensor<" + "x".join("4" if r == "d0" else "6" for r in res) + f"xi{w}>")
+        omap = rng.choice(MAPS2[:2])
+        oty = "tensor<" + ("4x6" if omap == MAPS2[0] else "6x4") + f"xi{w}>"
+        used = [rng.random() < 0.8 for _ in range(nin)]
+        if not any(used):
+            used[0] = True
+        vals = [f"%x{j}" for j in range(nin) if used[j]]
+        lines, cur = [], vals[0]
+        for q in range(rng.choice([1, 2, 3])):
+            nv = f"%v{q}"
+            lines.append(f"      {nv} = arith.{rng.choice(['addi', 'muli', 'subi'])} {cur}, {rng.choice(vals)} : i{w}")
+            cur = nv
+        body_txt = "\n".join(lines) + f" {cur} "
+        used = [any((f"%x{j}" + t) in body_txt for t in (" ", ",", "\n")) for j in range(nin)]     # what the body really reads
+        args = ", ".join(f"%a{j} : {tys[j]}" for j in range(nin))
+        bargs = ", ".join([f"%x{j} : i{w}" for j in range(nin)] + [f"%z : i{w}"])
+        acc = rng.choice(["snax_alu", "snax_gemmx"])
+        mtxt = ", ".join(f"affine_map<{m}>" for m in maps + [omap])
+        text = f"""builtin.module {{
+  func.func @f({args}) -> {oty} {{
+    %e = tensor.empty() : {oty}
+    %r = linalg.generic {{indexing_maps = [{mtxt}], iterator_types = ["parallel", "parallel"], library_call = "{acc}_stream"}} ins({', '.join(f'%a{j}' for j in range(nin))} : {', '.join(tys)}) outs(%e : {oty}) {{
+    ^bb0({bargs}):
+{chr(10).join(lines)}
+      linalg.yield {cur} : i{w}
+    }} -> {oty}
+    func.return %r : {oty}
+  }}
+}}
+"""
+        try:
+            src = repo.parse(text)
+            src.verify()
+        except Exception as e:
+            raise MachineryError(f"generator produced invalid input: {e}\n{text}")
+        m = src.clone()
+        try:
+            repo.run_pipeline(m, "convert-linalg-to-dart")
+            m.verify()
+        except NotImplementedError:
+            rep.refused += 1
+            continue
+        except Exception as e:
+            rep.evaluations += 1
+            rep.violation(f"gen:{seed}:{k}", f"convert-linalg-to-dart raised {type(e).__name__}: {str(e)[:200]}", {"source": text})
+            continue
+        ops = [o for o in m.walk() if isinstance(o, dart.OperationOp)]
+        gens = [o for o in m.walk() if isinstance(o, dart.GenericOp)]
+        if len(ops) != 1 or len(gens) != 1 or any(isinstance(o, linalg.GenericOp) for o in m.walk()):
+            rep.evaluations += 1
+            rep.violation(f"gen:{seed}:{k}", "the linalg.generic was not replaced by exactly one dart.operation with one dart.generic", {"source": text, "after": str(m)[:3000]})
+            continue
+        op = ops[0]
+        fn = [o for o in m.walk() if o.name == "func.func"][0]
+        argidx = {a: j for j, a in enumerate(fn.body.block.args)}
+        want = [[j, maps[j]] for j in range(nin) if used[j]] + [[-1, omap]]
+        got = [[argidx.get(v, -1), str(p.data).replace("affine_map<", "").rstrip(">")] for v, p in zip(list(op.inputs) + list(op.outputs), op.patterns.data)]
+        ocases.append({"kind": "eq", "clause": "StreamsUsedOperandsWithTheirMaps", "name": f"gen:{seed}:{k}", "x": got, "y": want, "text": text})
+        ocases.append({"kind": "eq", "clause": "AcceleratorFromLibraryCall", "name": f"gen:{seed}:{k}:acc", "x": op.accelerator.data if op.accelerator else "", "y": acc, "text": text})
+        ga = [o for o in src.walk() if isinstance(o, linalg.GenericOp)][0]
+        ia, ib = finish_image(export_body(ga.body.block, wmap)), finish_image(export_body(gens[0].body.block, wmap))
+        pcases.append({"name": f"gen:{seed}:{k}", "A": ia, "B": ib, "argdom": domains([w] * (nin + 1), 125), "opqdom": [[0]], "text": text, "after": str(m)[:3000]})
+    rep.rule = (f"{n} generated linalg.generic ops on tensors (1-3 inputs, some unused by the body, identity / transposed / broadcast maps, bodies of 1-3 "
+                "integer ops) through the real convert-linalg-to-dart; TLC compares the streamed operands and patterns with the used operands and "
+                "their indexing maps and runs both bodies on the machine (contract scalar)")
+    if ocases:
+        r, verdicts = run_obj_batch(pid, ocases, tag="streams")
+        rep.add_tlc(r)
+        for tid, v in verdicts.items():
+            c = ocases[tid - 1]
+            rep.evaluations += 1
+            rep.traces += 1
+            rep.nontrivial.add(text_hash(c["text"]))
+            if v != "ok":
+                rep.violation(c["name"], f"clause {v} fails: got {c['x']} expected {c['y']}", {"source": c["text"], "clause": v})
+    for lo in range(0, len(pcases), 400):
+        chunk = pcases[lo:lo + 400]
+        r, per = run_pair_batch(pid, "scalar", chunk, tag=f"bodies{lo}")
+        rep.add_tlc(r)
+        for tid, vs in per.items():
+            c = chunk[tid - 1]
+            rep.evaluations += len(vs)
+            if len(rep.samples) < 2:
+                rep.samples.append({"case": c["name"], "source": c["text"], "after": c["after"]})
+            bad = [v for v in vs if v[1] != "ok" and not v[1].startswith("skipA")]
+            if bad:
+                rep.violation(c["name"] + "|body", f"clause {bad[0][1]} fails for inputs {oracle_at(c, bad[0][0])['args']}", {"source": c["text"], "after": c["after"]})
+    return rep.finish(known)
+
+
 def run(pid: str, tier: str, seed: int, selftest=False, replay=None) -> int:
+    if pid == "E03":
+        return run_streamify(pid, tier, seed)
     if pid == "E01":
         return run_resets(pid, tier, seed)
     if pid == "E02":
